@@ -49,6 +49,10 @@ func (RecvA) Boom(s string) error            { atomic.AddInt64(&invocations, 1);
 func (RecvA) CloseThing(x string) error      { atomic.AddInt64(&invocations, 1); return nil } // helper method of the same object
 func (RecvA) hidden(x string) string         { atomic.AddInt64(&invocations, 1); return x }   // unexported
 
+// names that contain, start with or end in another method's name: an allow-list entry admits exactly its own name
+func (RecvA) Reecho(s string) string  { atomic.AddInt64(&invocations, 1); return s }
+func (RecvA) PingAll() string         { atomic.AddInt64(&invocations, 1); return "all" }
+
 type RecvB struct{}
 
 func (*RecvB) Status() map[string]int                  { atomic.AddInt64(&invocations, 1); return map[string]int{"a": 1} }
@@ -57,6 +61,8 @@ func (*RecvB) Account(ctx context.Context, w string) (*ReqT, error) {
 	return &ReqT{Name: w}, nil
 }
 func (*RecvB) OptObj(r *ReqT) int { atomic.AddInt64(&invocations, 1); return 1 }
+func (*RecvB) Restatus() int       { atomic.AddInt64(&invocations, 1); return 2 }
+func (*RecvB) StatusAll() int      { atomic.AddInt64(&invocations, 1); return 3 }
 
 var srvReceivers = map[string]interface{}{"A": RecvA{}, "pA": &RecvA{}, "B": &RecvB{}}
 
@@ -196,11 +202,11 @@ func (c *srvComp) Gen(r *rand.Rand, idx int, emit func(string)) {
 	}
 	allow := allowSets[recv][r.Intn(len(allowSets[recv]))]
 	emit(fmt.Sprintf("reg %s recv=%s allow=%s", Tok(pre), recv, JoinC(allow)))
-	names := []string{"ping", "echo", "add", "flag", "signed", "opt", "boom", "closeThing", "hidden", "status", "account", "optObj"}
+	names := []string{"ping", "echo", "add", "flag", "signed", "opt", "boom", "closeThing", "hidden", "status", "account", "optObj", "reecho", "pingAll", "restatus", "statusAll"}
 	own := map[string][]string{
-		"A":  {"ping", "echo", "add", "flag", "signed", "opt", "boom", "closeThing"},
-		"pA": {"ping", "echo", "add", "flag", "signed", "opt", "boom", "closeThing"},
-		"B":  {"status", "account", "optObj"},
+		"A":  {"ping", "echo", "add", "flag", "signed", "opt", "boom", "closeThing", "reecho", "pingAll"},
+		"pA": {"ping", "echo", "add", "flag", "signed", "opt", "boom", "closeThing", "reecho", "pingAll"},
+		"B":  {"status", "account", "optObj", "restatus", "statusAll"},
 	}[recv]
 	// parameter lists around each method's declared signature (exact, one short, one long, one wrongly typed, nulls)
 	near := map[string][]string{
@@ -216,6 +222,10 @@ func (c *srvComp) Gen(r *rand.Rand, idx int, emit func(string)) {
 		"account":    {"s", "i", "[]", "s.s", "n", "absent"},
 		"optObj":     {"o", "[]", "absent", "n", "ob", "s", "o.o", "null", "a"},
 		"hidden":     {"s"},
+		"reecho":     {"s", "[]", "s.s"},
+		"pingAll":    {"absent", "[]", "s"},
+		"restatus":   {"absent", "[]", "s"},
+		"statusAll":  {"absent", "[]", "i"},
 	}
 	paramToks := []string{"absent", "null", "nonarray", "[]", "s", "i", "b", "n", "f", "a", "o", "ob", "s.s", "i.i", "s.i", "s.s.i.o"}
 	for i := 0; i < 15+r.Intn(25); i++ {
